@@ -425,6 +425,8 @@ def shrink_chain(cid, P, bad):
     for n in range(0, len(steps) - 1):
         for sub in itertools.combinations(range(1, len(steps)), n):
             cand = [steps[0]] + [steps[i] for i in sub]
+            if not S.chain_valid(cand):
+                continue
             try:
                 built = S.build(("Chain:" + ">".join(cand), "b_chain", dict(steps=cand)), P)
                 b2 = oracle(built, observe(built), P)
